@@ -419,6 +419,111 @@ fn pst13_short_first_proof(ctx: &mut Ctx, rng: &mut ChaCha20Rng) {
     ctx.check(!o.is_accept(), "short-first-proof-forgery", "batch_check", desc, || json!({"batch": o.json()}));
 }
 
+/// Inner-product argument, batches of 65..140 point labels: the proof of one early point is replaced by a forgery
+/// for a false value that satisfies the succinct part of the relation (final key solved from the round
+/// commitment; the challenges are public) and fails only the final linear-time test. The single check of that
+/// point rejects it; the batch must not accept it wherever in the batch it stands.
+fn ipa_long_batch(ctx: &mut Ctx, idx: u64, rng: &mut ChaCha20Rng) {
+    use crate::schemes::{uni_poly, Cfg, IpaS, JFr, Shape};
+    use ark_ec::CurveGroup;
+    use ark_ff::{UniformRand, Zero};
+    use ark_poly_commit::{ipa_pc, LabeledPolynomial, QuerySet};
+    use ark_std::ops::Mul;
+    type S = IpaS;
+    let d = [3usize, 7, 1, 15][(idx % 4) as usize];
+    let cfg = Cfg { max_degree: d, num_vars: None, supported_degree: d, supported_hiding: 1, enforced: None };
+    let w = match make_world::<S>(&cfg, rng) {
+        Ok(w) => w,
+        Err(_) => return ctx.skipped("baseline", "setup refused"),
+    };
+    let npolys = range(rng, 1, 2);
+    let polys: Vec<LPoly<S>> = (0..npolys).map(|i| LabeledPolynomial::new(format!("p{}", i), uni_poly::<JFr>(Shape::Full, d, rng), None, None)).collect();
+    let c = match commit::<S>(&w.ck, &polys, rng.next_u64()) {
+        Ok(c) => c,
+        Err(_) => return ctx.skipped("baseline", "commit refused"),
+    };
+    let tx = Tx::<S> { w, specs: vec![], polys, c, pre: b"c05-ipa-long".to_vec(), commit_seed: 0 };
+    let k = if ctx.is_thorough() { range(rng, 65, 140) } else { range(rng, 65, 72) };
+    let mut qs: QuerySet<PtOf<S>> = QuerySet::new();
+    let mut evals = Evaluations::new();
+    for j in 0..k {
+        let z = JFr::rand(rng);
+        for p in &tx.polys {
+            if npolys == 1 || rng.next_u32() % 3 != 0 || p.label() == "p0" {
+                qs.insert((p.label().clone(), (format!("z{:03}", j), z)));
+                evals.insert((p.label().clone(), z), p.evaluate(&z));
+            }
+        }
+    }
+    let q = Queries::<S> { evals, groups: groups_of::<S>(&qs), qs };
+    let ident: Vec<usize> = (0..npolys).collect();
+    let proof = match batch_open::<S>(&tx, &ident, &q.qs, &mut tx.sponge(), 2) {
+        Ok(p) => p,
+        Err(_) => return ctx.skipped("baseline", "honest batch_open refused"),
+    };
+    let mut spv = tx.sponge();
+    let honest = batch_check::<S>(&tx.w.vk, &tx.c.comms, &q.qs, &q.evals, &proof, &mut spv, 2);
+    let desc = json!({"supported_degree": d, "point_labels": k, "polynomials": npolys});
+    ctx.check(honest.is_accept(), "all-true-accepted", "batch_check", desc.clone(), || json!({"outcome": honest.json()}));
+    if !honest.is_accept() {
+        return;
+    }
+    let ch: Vec<JFr> = spv.squeezed_fes();
+    let proofs: Vec<ipa_pc::Proof<crate::schemes::JubJub>> = proof.clone().into();
+    let total: usize = q.groups.iter().map(|g| 2 * g.2.len() + 1).sum();
+    if proofs.len() != k || ch.len() != total {
+        return ctx.skipped("long-batch-forged-final-key", "challenge schedule differs from the model");
+    }
+    // targets: the first group, one among the first 64, one anywhere
+    for t in [0usize, below(rng, 64.min(k)), below(rng, k)] {
+        let off: usize = q.groups[..t].iter().map(|g| 2 * g.2.len() + 1).sum();
+        let g = &q.groups[t];
+        let mut cc = <crate::schemes::JubJub as ark_ec::AffineRepr>::Group::zero();
+        let mut cv = JFr::zero();
+        let delta = JFr::rand(rng);
+        let mut ev2 = q.evals.clone();
+        for (j, l) in g.2.iter().enumerate() {
+            let xi = ch[off + 2 * j];
+            let mut v = tx.polys[tx.idx_of(l)].evaluate(&g.1);
+            if j == 0 {
+                v += delta;
+                ev2.insert((l.clone(), g.1), v);
+            }
+            cc += tx.c.comms[tx.idx_of(l)].commitment().comm.mul(xi);
+            cv += xi * v;
+        }
+        let pr = &proofs[t];
+        if pr.hiding_comm.is_some() || ch[off].is_zero() || delta.is_zero() {
+            continue;
+        }
+        let fk = match crate::ipa_ref::forge_final_key(&tx.w.vk.h, cc, cv, g.1, &pr.l_vec, &pr.r_vec, &pr.c) {
+            Some(x) => x,
+            None => continue,
+        };
+        let mut forged = proofs.clone();
+        forged[t].final_comm_key = fk;
+        let fb: BatchProofOf<S> = forged.clone().into();
+        let mut dj = desc.clone();
+        dj["forged_position"] = json!(t);
+        // the forgery must do what it was built for: the reference relation fails only in its last clause
+        let rounds = pr.l_vec.len();
+        let refd = crate::ipa_ref::verify_relation(&tx.w.vk.comm_key, &tx.w.vk.h, &tx.w.vk.s, cc, cv, g.1, &pr.l_vec, &pr.r_vec, &fk, &pr.c, None, rounds);
+        if refd != Ok(false) {
+            ctx.skipped("long-batch-forged-final-key", "forgery does not fail the reference relation in the expected way");
+            continue;
+        }
+        if t == 0 {
+            // same sponge state as in the batch: the single check sees the same challenges
+            let comms: Vec<&LComm<S>> = g.2.iter().map(|l| &tx.c.comms[tx.idx_of(l)]).collect();
+            let vals: Vec<JFr> = g.2.iter().map(|l| ev2[&(l.clone(), g.1)]).collect();
+            let o = check::<S>(&tx.w.vk, &comms, &g.1, &vals, &forged[0], &mut tx.sponge(), 3);
+            ctx.check(!o.is_accept(), "long-batch-forged-final-key", "check", dj.clone(), || json!({"outcome": o.json()}));
+        }
+        let o = batch_check::<S>(&tx.w.vk, &tx.c.comms, &q.qs, &ev2, &fb, &mut tx.sponge(), 4);
+        ctx.check(!o.is_accept(), "long-batch-forged-final-key", "batch_check", dj, || json!({"outcome": o.json(), "single_check_of_that_point": "rejects (final linear-time test)"}));
+    }
+}
+
 pub fn run(ctx: &mut Ctx) {
     crate::schemes::set_custom_params(true);
     for_each_scheme!(ctx, S, {
@@ -434,5 +539,6 @@ pub fn run(ctx: &mut Ctx) {
     crate::schemes::set_large(false);
     let n = ctx.n(20, 300);
     ctx.run_cases("pst13/short-first-proof", n, |ctx, _i, rng| pst13_short_first_proof(ctx, rng));
+    ctx.run_cases("ipa/long-batch", if ctx.is_thorough() { 48 } else { 16 }, |ctx, i, rng| ipa_long_batch(ctx, i, rng));
     super::offtrait::c05(ctx);
 }
